@@ -84,8 +84,11 @@ type c05Input struct {
 	Retain  map[string]int64    `json:"retain"`   // Commit of height -> RetainHeight
 	// HashMode "txs": the application hash only changes with transactions (like kvstore's; empty
 	// blocks leave it alone); anything else: it also covers the number of commits
-	HashMode string       `json:"hash_mode"`
-	Runs     []c05RunSpec `json:"runs"`
+	HashMode string `json:"hash_mode"`
+	// InitialHeight of the genesis document (0 or 1: the default).  Plan, ParamAt and Retain are
+	// given by BLOCK NUMBER 1, 2, ...; block number n has height InitialHeight - 1 + n.
+	InitialHeight int64        `json:"initial_height"`
+	Runs          []c05RunSpec `json:"runs"`
 }
 
 // ------------------------------------------------------------------------------------ trace
@@ -133,6 +136,7 @@ type c05Cfg struct {
 	PU     []int64 `json:"pu"`     // heights whose EndBlock returns consensus-param updates
 	Retain []int64 `json:"retain"` // RetainHeight returned by Commit(h)
 	HashC  bool    `json:"hashc"`  // the application hash covers the number of commits
+	IH     int64   `json:"ih"`     // genesis InitialHeight
 }
 
 func c05Label(op, k string, h, i int64) string {
@@ -154,6 +158,7 @@ type c05App struct {
 	txs         int64
 	hist        map[int64]int64 // height -> txs committed up to and including it
 	hashTxsOnly bool
+	ih          int64 // genesis InitialHeight (>= 1)
 	// working block
 	openTxs  int64
 	valUpds  []abci.ValidatorUpdate
@@ -185,7 +190,23 @@ func (a *c05App) hash() c05Hash {
 	if a.hashTxsOnly {
 		return c05Hash{C: 0, T: a.txs}
 	}
-	return c05Hash{C: a.height, T: a.txs}
+	return c05Hash{C: a.commits(), T: a.txs}
+}
+
+// commits: number of blocks the application has committed (its height counts from InitialHeight)
+func (a *c05App) commits() int64 {
+	if a.height == 0 {
+		return 0
+	}
+	return a.height - a.ih + 1
+}
+
+func (a *c05App) up() {
+	if a.height == 0 {
+		a.height = a.ih
+	} else {
+		a.height++
+	}
 }
 
 // forward: the application has committed n more (empty) blocks than the node knows of.
@@ -193,7 +214,7 @@ func (a *c05App) forward(n int64) int64 {
 	a.mtx.Lock()
 	defer a.mtx.Unlock()
 	for ; n > 0; n-- {
-		a.height++
+		a.up()
 		a.hist[a.height] = a.txs
 	}
 	a.openTxs = 0
@@ -208,7 +229,10 @@ func (a *c05App) Info(abci.RequestInfo) abci.ResponseInfo {
 		LastBlockHeight: a.height, LastBlockAppHash: c05EncodeHash(a.hash())}
 }
 
-func (a *c05App) InitChain(abci.RequestInitChain) abci.ResponseInitChain {
+func (a *c05App) InitChain(req abci.RequestInitChain) abci.ResponseInitChain {
+	if req.InitialHeight > 1 && req.InitialHeight != a.ih {
+		panic(fmt.Sprintf("c05 harness: InitChain with initial height %d, expected %d", req.InitialHeight, a.ih))
+	}
 	return abci.ResponseInitChain{}
 }
 
@@ -257,7 +281,7 @@ func (a *c05App) EndBlock(req abci.RequestEndBlock) abci.ResponseEndBlock {
 func (a *c05App) Commit() abci.ResponseCommit {
 	a.mtx.Lock()
 	defer a.mtx.Unlock()
-	a.height++
+	a.up()
 	a.txs += a.openTxs
 	a.hist[a.height] = a.txs
 	a.openTxs = 0
@@ -269,10 +293,13 @@ func (a *c05App) Commit() abci.ResponseCommit {
 func (a *c05App) rollback(n int64) int64 {
 	a.mtx.Lock()
 	defer a.mtx.Unlock()
-	if n > a.height {
-		n = a.height
+	for ; n > 0 && a.height > 0; n-- {
+		if a.height == a.ih {
+			a.height = 0
+		} else {
+			a.height--
+		}
 	}
-	a.height -= n
 	a.txs = a.hist[a.height]
 	a.openTxs = 0
 	a.valUpds = nil
@@ -936,13 +963,25 @@ func c05NewWorld(inp *c05Input, id string) *c05World {
 		blocks:    map[string][]string{},
 		heights:   int64(inp.Heights),
 	}
+	ih := inp.InitialHeight
+	if ih < 1 {
+		ih = 1
+	}
+	off := ih - 1 // block number -> height
+	w.app.ih = ih
+	w.heights += off
+	genDoc.InitialHeight = ih
+	if w.app.paramAt != 0 {
+		w.app.paramAt += off
+	}
 	for hs, r := range inp.Retain {
 		h, _ := strconv.ParseInt(hs, 10, 64)
-		w.app.retain[h] = r
+		w.app.retain[h+off] = r + off
 	}
 	valKey := ed25519.GenPrivKeyFromSecret([]byte("c05-second-validator"))
 	for hs, txs := range inp.Plan {
 		h, _ := strconv.ParseInt(hs, 10, 64)
+		h += off
 		for _, t := range txs {
 			var tx types.Tx
 			if t == "VAL" {
@@ -961,10 +1000,15 @@ func c05NewWorld(inp *c05Input, id string) *c05World {
 // specCfg renders the chain plan as the cfg record of TMCommitPipeline.
 func (w *c05World) specCfg(inp *c05Input) *c05Cfg {
 	n := int64(len(inp.Plan))
-	c := &c05Cfg{MaxH: n, Txs: []int64{}, VU: []int64{}, PU: []int64{}, Retain: []int64{}, HashC: !w.app.hashTxsOnly}
+	off := w.app.ih - 1
+	c := &c05Cfg{MaxH: n + off, Txs: []int64{}, VU: []int64{}, PU: []int64{}, Retain: []int64{}, HashC: !w.app.hashTxsOnly, IH: w.app.ih}
 	for h := int64(1); h <= n; h++ {
-		c.Txs = append(c.Txs, int64(len(w.plan[h])))
-		c.Retain = append(c.Retain, w.app.retain[h])
+		c.Txs = append(c.Txs, int64(len(w.plan[h+off])))
+		r := w.app.retain[h+off]
+		if r > 0 {
+			r -= off
+		}
+		c.Retain = append(c.Retain, r)
 		for _, t := range inp.Plan[strconv.FormatInt(h, 10)] {
 			if t == "VAL" {
 				c.VU = append(c.VU, h)
@@ -1028,7 +1072,8 @@ func (n *c05Node) stop() {
 func c05ErrClass(s string) string {
 	for _, pat := range []string{
 		"wal should not contain #ENDHEIGHT", "WAL does not contain #ENDHEIGHT", "uncovered case",
-		"state.AppHash does not match", "block.AppHash does not match", "StateBlockHeight", "StoreBlockHeight",
+		"state.AppHash does not match", "block.AppHash does not match", "> StateBlockHeight + 1", "> StoreBlockHeight",
+		"StateBlockHeight", "StoreBlockHeight",
 		"no last ABCI response", "expected height", "failed to reconstruct last commit", "app block height",
 		"error on replay", "wrong Block.Header.AppHash", "wrong Block.Header.Height", "updateToState() expected",
 		"BlockStore can only save contiguous", "cannot replay height", "data has been corrupted",
